@@ -105,6 +105,17 @@ Definition set_default (s : sys) (name : N) (st : bstate) : sys := mkSys (s_b s)
 End Sys.
 Arguments sys : clear implicits.
 
+(* bucketType.reset, in both forms the source had (the translator tells which one it has now):
+   refill interval = Period / Count in whole ns, since 7348cd5bb clamped to 1 ns when that is 0
+   and Period >= 0 (before: 0, i.e. an unlimited bucket - F23); tokens taken at creation =
+   TakenTokens, since 4e20ebf0e capped at Count (before: a larger value was refused and left the
+   bucket full - F24) *)
+Definition interval_of (clamp : bool) (s : bstate) : Z :=
+  let i := Z.quot (bs_period s) (bs_max s) in
+  if clamp && (i =? 0) && (0 <=? bs_period s) then 1 else i.
+Definition primed_of (cap : bool) (s : bstate) : Z :=
+  if cap then Z.min (bs_taken s) (bs_max s) else bs_taken s.
+
 (* ------------------------------------------------------------------ F: float replica *)
 Definition f_of_Z (z : Z) : float :=
   if z <? 0 then
@@ -167,8 +178,8 @@ Definition f_every (interval : Z) : float :=
 
 (* bucketType.reset *)
 Definition f_new (s : bstate) (now : Z) : flim :=
-  let limit := if 0 <? bs_max s then f_every (Z.quot (bs_period s) (bs_max s)) else 0%float in
-  snd (f_allow false (mkFL limit (bs_max s) 0 0) now (bs_taken s)).
+  let limit := if 0 <? bs_max s then f_every (interval_of rates_sub_ns_interval_clamped s) else 0%float in
+  snd (f_allow false (mkFL limit (bs_max s) 0 0) now (primed_of rates_taken_capped_at_count s)).
 
 (* recalcBuketState: uint32(max(0, burst - tokens)) *)
 Definition f_taken (l : flim) (now : Z) : Z :=
@@ -201,10 +212,11 @@ Definition x_allow (coin : bool) (l : xlim) (now n : Z) : bool * xlim :=
       else (false, mkXL XNorm (xburst l) (xI l) (xc l) last (xfrac l))
   end.
 
-Definition x_new (s : bstate) (now : Z) : xlim :=
-  let i := if 0 <? bs_max s then Z.quot (bs_period s) (bs_max s) else 0 in
+Definition x_new_gen (clamp cap : bool) (s : bstate) (now : Z) : xlim :=
+  let i := if 0 <? bs_max s then interval_of clamp s else 0 in
   let k := if 0 <? bs_max s then (if i <=? 0 then XInf else XNorm) else XZero in
-  snd (x_allow false (mkXL k (bs_max s) i 0 0 false) now (bs_taken s)).
+  snd (x_allow false (mkXL k (bs_max s) i 0 0 false) now (primed_of cap s)).
+Definition x_new := x_new_gen rates_sub_ns_interval_clamped rates_taken_capped_at_count.
 
 Definition x_taken (l : xlim) (now : Z) : Z :=
   match xk l with
@@ -363,11 +375,12 @@ Inductive ckind := CZero | CUnl | CNorm (i : Z).
 Definition ckind_of (s : bstate) : ckind :=
   if bs_max s =? 0 then CZero
   else if bs_period s <? 0 then CUnl   (* a negative period means nothing: not judged *)
-  else CNorm (Z.quot (bs_period s) (bs_max s)).
-(* CNorm 0: N >= 1 operations per period P with 0 <= P < N (an interval below 1 ns).  The window
-   bound is undefined there (division by zero) but "a fresh or reset bucket admits exactly N at
-   once" and "one instant admits at most N" are not: such a bucket is judged at single instants
-   (the code makes it unlimited: finding F23). *)
+  else CNorm (Z.max 1 (Z.quot (bs_period s) (bs_max s))).
+(* N >= 1 operations per period P with 0 <= P < N declare more than one operation per ns; the
+   statement's bound divides by P/N = 0 there.  Such a bucket is judged as the tightest bucket
+   that never exceeds the declared rate: interval 1 ns (window bound N + T + 1 <= N + T*N/P + 1),
+   exactly N at once when fresh, at most N at one instant.  (The code made it unlimited until
+   7348cd5bb - finding F23, fixed.) *)
 
 Record orec := mkO { o_known : bool; o_cfg : bstate; o_at : Z; o_avail : option Z;
                      o_adm : list (Z * Z); o_get : option (Z * Z) }.
